@@ -42,8 +42,27 @@ func actBuild(e *Env, a J) J {
 	c := gj(a, "call")
 	fn := gs(c, "fn")
 	var err error
-	// arguments are passed as fresh copies so that aliasing by a builder would be visible in later projections
-	oct := func(k string) []byte { return nilIfEmpty(octOf(gox(c, k))) }
+	// octet-string arguments are the caller's buffers: each has spare capacity behind it, and all of it is overwritten once
+	// the call has returned (the builders copy what they are given; a payload must not live in the caller's memory)
+	var lent [][]byte
+	defer func() {
+		for _, b := range lent {
+			b = b[:cap(b)]
+			for i := range b {
+				b[i] = 0xEE
+			}
+		}
+	}()
+	oct := func(k string) []byte {
+		v := gox(c, k)
+		if len(v) == 0 {
+			return nil
+		}
+		buf := make([]byte, len(v), len(v)+64)
+		copy(buf, v)
+		lent = append(lent, buf)
+		return buf
+	}
 	switch fn {
 	case "Reset":
 		b.cont.Reset()
